@@ -7,6 +7,7 @@ AS_H = 'src/tbb/arena_slot.h'
 TD_CPP = 'src/tbb/task_dispatcher.cpp'
 PF_H = 'include/oneapi/tbb/parallel_for.h'
 MB_H = 'src/tbb/mailbox.h'
+FE_CPP = 'src/tbbmalloc/frontend.cpp'
 AR_CPP = 'src/tbb/arena.cpp'
 FGJ_H = 'include/oneapi/tbb/detail/_flow_graph_join_impl.h'
 FG_H = 'include/oneapi/tbb/flow_graph.h'
@@ -606,6 +607,51 @@ MUTANTS = [
         ('src/tbb/global_control.cpp', "        threading_control::set_active_num_workers(my_active_value - 1);", "        threading_control::set_active_num_workers(my_active_value);")]),
     dict(name='c16-join-unconditionally', prop='C16', clause='D6', edits=[
         (AR_CPP, "    if (is_joinable()) {\n        my_references += arena::ref_worker;\n        return true;\n    }\n    return false;", "    my_references += arena::ref_worker;\n    return true;")]),
+    # ---------------------------------------------------------------- C17
+    dict(name='c17-free-always-own', prop='C17', clause='D1', edits=[
+        (FE_CPP, "    if (block->isOwnedByCurrentThread()) {\n        block->freeOwnObject(object);\n    } else {", "    if (block->isOwnedByCurrentThread() || block->empty()) {\n        block->freeOwnObject(object);\n    } else {")]),
+    dict(name='c17-public-push-store', prop='C17', clause='D1', edits=[
+        (FE_CPP, "    do {\n        objectToFree->next = localPublicFreeList;\n        // no backoff necessary because trying to make change, not waiting for a change\n    } while( !publicFreeList.compare_exchange_strong(localPublicFreeList, objectToFree) );",
+         "    objectToFree->next = localPublicFreeList;\n    publicFreeList.store(objectToFree, std::memory_order_release);")]),
+    dict(name='c17-public-push-stale-link', prop='C17', clause='D1', edits=[
+        (FE_CPP, "    do {\n        objectToFree->next = localPublicFreeList;\n        // no backoff necessary because trying to make change, not waiting for a change\n    } while( !publicFreeList.compare_exchange_strong(localPublicFreeList, objectToFree) );",
+         "    objectToFree->next = localPublicFreeList;\n    do {\n        // no backoff necessary because trying to make change, not waiting for a change\n    } while( !publicFreeList.compare_exchange_strong(localPublicFreeList, objectToFree) );")]),
+    dict(name='c17-mail-always', prop='C17', clause='D1', edits=[
+        (FE_CPP, "    if( localPublicFreeList==nullptr ) {\n        // if the block is abandoned, its nextPrivatizable pointer should be UNUSABLE", "    {\n        // if the block is abandoned, its nextPrivatizable pointer should be UNUSABLE")]),
+    dict(name='c17-privatize-load-store', prop='C17', clause='D1', edits=[
+        (FE_CPP, "    localPublicFreeList = publicFreeList.exchange((FreeObject*)endMarker);", "    localPublicFreeList = publicFreeList.load(std::memory_order_acquire); publicFreeList.store((FreeObject*)endMarker, std::memory_order_relaxed);")]),
+    dict(name='c17-calloc-wrong-size', prop='C17', clause='D2', edits=[
+        (FE_CPP, "    if (result)\n        memset(result, 0, arraySize);", "    if (result)\n        memset(result, 0, size);")]),
+    dict(name='c17-realloc-copy-newsize', prop='C17', clause='D2', edits=[
+        (FE_CPP, "        memcpy(result, ptr, copySize < newSize ? copySize : newSize);", "        memcpy(result, ptr, copySize > newSize ? copySize : newSize);")]),
+    dict(name='c17-realloc-free-on-failure', prop='C17', clause='D2', edits=[
+        (FE_CPP, "    if (result) {\n        memcpy(result, ptr, copySize < newSize ? copySize : newSize);\n        internalPoolFree(memPool, ptr, 0);\n    }",
+         "    if (result) {\n        memcpy(result, ptr, copySize < newSize ? copySize : newSize);\n    }\n    internalPoolFree(memPool, ptr, 0);")]),
+    # ---------------------------------------------------------------- C18
+    dict(name='c18-memalign-no-check', prop='C18', clause='D1', edits=[
+        (FE_CPP, "    if ( !isPowerOfTwoAtLeast(alignment, sizeof(void*)) )\n        return EINVAL;\n", "")]),
+    dict(name='c18-malloc-no-errno', prop='C18', clause='D1', edits=[
+        (FE_CPP, "    void *ptr = internalMalloc(size);\n    if (!ptr) errno = ENOMEM;\n    return ptr;", "    void *ptr = internalMalloc(size);\n    return ptr;")]),
+    dict(name='c18-calloc-overflow-ignored', prop='C18', clause='D1', edits=[
+        (FE_CPP, "        if (nobj && arraySize / nobj != size) {             // 2) exact check\n            errno = ENOMEM;\n            return nullptr;\n        }",
+         "        if (nobj && arraySize / nobj != size) {             // 2) exact check\n            errno = ENOMEM;\n        }")]),
+    dict(name='c18-memalign-memptr-on-failure', prop='C18', clause='D1', edits=[
+        (FE_CPP, "    void *result = allocateAligned(defaultMemPool, size, alignment);\n    if (!result)\n        return ENOMEM;\n    *memptr = result;\n    return 0;",
+         "    void *result = allocateAligned(defaultMemPool, size, alignment);\n    *memptr = result;\n    if (!result)\n        return ENOMEM;\n    return 0;")]),
+    dict(name='c18-aligned-unchecked-null', prop='C18', clause='D2', edits=[
+        (FE_CPP, "            void *unaligned = internalPoolMalloc(memPool, size+alignment);\n            if (!unaligned) return nullptr;\n", "            void *unaligned = internalPoolMalloc(memPool, size+alignment);\n")]),
+    dict(name='c18-pool-create-memset-null', prop='C18', clause='D3', edits=[
+        (FE_CPP, "    if (!memPool) {\n        *pool = nullptr;\n        return NO_MEMORY;\n    }\n    memset(static_cast<void*>(memPool), 0, sizeof(rml::internal::MemoryPool));",
+         "    memset(static_cast<void*>(memPool), 0, sizeof(rml::internal::MemoryPool));\n    if (!memPool) {\n        *pool = nullptr;\n        return NO_MEMORY;\n    }")]),
+    dict(name='c18-fixed-pool-asks-again', prop='C18', clause='D3', edits=[
+        ('src/tbbmalloc/backend.cpp', "        if (extMemPool->fixedPool && bootsrapMemDone == bootsrapMemStatus.load(std::memory_order_acquire))\n            return nullptr;\n", "")]),
+    dict(name='c18-pool-destroy-order', prop='C18', clause='D3', edits=[
+        (FE_CPP, "    bool ret = ((rml::internal::MemoryPool*)memPool)->destroy();\n    internalFree(memPool);\n", "    internalFree(memPool);\n    bool ret = ((rml::internal::MemoryPool*)memPool)->destroy();\n")]),
+    dict(name='c18-pool-create-leak-on-init-failure', prop='C18', clause='D3', edits=[
+        (FE_CPP, "    if (!memPool->init(pool_id, policy)) {\n        internalFree(memPool);\n        *pool = nullptr;", "    if (!memPool->init(pool_id, policy)) {\n        *pool = nullptr;")]),
+    dict(name='c18-user-pool-maps-os', prop='C18', clause='D3', edits=[
+        ('src/tbbmalloc/backend.cpp', "        allocSize = alignUpGeneric(size, extMemPool->granularity);\n        res = (*extMemPool->rawAlloc)(extMemPool->poolId, allocSize);",
+         "        allocSize = alignUpGeneric(size, extMemPool->granularity);\n        res = (*extMemPool->rawAlloc)(extMemPool->poolId, allocSize);\n        if (!res) res = getRawMemory(allocSize, REGULAR);")]),
 ]
 
 BENIGN = [
@@ -655,4 +701,8 @@ BENIGN = [
         (FG_H, "            if ( my_count + my_tries >= my_threshold )\n                return nullptr;\n            else\n                ++my_tries;", "            if ( !(my_count + my_tries < my_threshold) )\n                return nullptr;\n            else\n                ++my_tries;")]),
     dict(name='c16-b-try_occupy-cas', prop='C16', edits=[
         (AS_H, "        return !is_occupied() && my_is_occupied.exchange(true) == false;", "        bool e = false;\n        return !is_occupied() && my_is_occupied.compare_exchange_strong(e, true);")]),
+    dict(name='c18-b-errno-helper-order', prop='C18', edits=[
+        (FE_CPP, "    void *ptr = internalMalloc(size);\n    if (!ptr) errno = ENOMEM;\n    return ptr;", "    void *ptr = internalMalloc(size);\n    if (ptr == nullptr) { errno = ENOMEM; }\n    return ptr;")]),
+    dict(name='c17-b-calloc-early-return', prop='C17', edits=[
+        (FE_CPP, "    if (result)\n        memset(result, 0, arraySize);\n    else\n        errno = ENOMEM;\n    return result;", "    if (!result) {\n        errno = ENOMEM;\n        return result;\n    }\n    memset(result, 0, arraySize);\n    return result;")]),
 ]
